@@ -18,9 +18,11 @@ def run_C16(ctx):
     total = len(scen)
     if quick:
         scen = core.sample(ctx.rng, scen, 12000)
-    tf = core.run_runner(ctx, "opts", scen, tag="opts")
-    acc, rej = core.validate(ctx, "TraceOptions", tf, tag="opts", sigfn=sig("C16"))
-    core.judge(ctx, rej)
+    # (in chunks: the runner keeps a run's events in memory, 600 k scenarios in one process took tens of gigabytes)
+    for k in range(0, max(len(scen), 1), 100000):
+        tf = core.run_runner(ctx, "opts", scen[k:k + 100000], tag="opts%d" % (k // 100000))
+        acc, rej = core.validate(ctx, "TraceOptions", tf, tag="opts%d" % (k // 100000), sigfn=sig("C16"))
+        core.judge(ctx, rej)
     ctx.notes["generated_option_trees"] = total
     return core.finish(ctx, exhaustive=not quick or total <= 12000, rule=(
         "TLC enumerates option trees (every list of up to 3 (quick) / 4 (thorough) distinct interceptors with nil at "
